@@ -53,6 +53,14 @@ def main():
         got, want, text = C13d.native_select(lib, sys.argv[2])
         print(text + 'read_block("X", processor, 1000): keys processed %r, expected %r' % (got, want))
         sys.exit(0 if got == want else 1)
+    if kind == 'lineclass':
+        from . import C13e
+        lib = harness_native('h_slha_blk')
+        bad, n = C13e.native_layout_probe(lib, sys.argv[2])
+        print('%d indented spellings classified by the real tokenizer' % n)
+        for b in bad:
+            print(b)
+        sys.exit(1 if bad else 0)
     if kind == 'key':
         print('key-table witness: see check output')
         sys.exit(1)
